@@ -762,7 +762,9 @@ def make_al_step_harness(n, m, it, newton_only, second_order):
             dx, dl = keep['dx0'], keep['dl0']
             ex.goal('line_search_tries_at_most_10_steps', Holds(1 <= len(trials) <= 10))
             y_last = loc.get('y')
-            if newton_only:
+            if newton_only or not subs:
+                # no sub-solve on this path (newton-only mode; or an iteration that skipped it: then the goals
+                # sub_problem_solved_exactly_when_not_newton_only / multipliers_nonnegative_at_end_of_iteration decide it)
                 accepted = loc['x'] is y_last
             else:
                 accepted = subs[0][1] is y_last
